@@ -42,6 +42,9 @@ def units(tier):
             if nd >= 3:
                 us.append(("corner", kind, rep, "whole" if ts is pools.T_WHOLE else "dev",
                            "z0" if zs is pools.Z0 else "dev", nd))
+    # cancellation sweeps: the duration removes (or completes) exactly the decimal part of p's time of day
+    for part in range(3):
+        us.append(("cancel", "greg", part))
     # far durations from the small year set
     for kind in A.KINDS:
         for rep in pools.REPS:
@@ -79,6 +82,39 @@ def _zsets(zkey, tier="thorough"):
     if zkey == "z0":
         return pools.Z0
     return Z_DEV_QUICK if tier == "quick" else pools.Z_DEV
+
+
+def cancel_cases(part):
+    """(point, durations): every hundredth as the decimal of a second / minute / hour of a point on 2000-03-01 (so that a
+    borrow crosses the leap day), with the durations that take exactly that much away again, or fill the unit up -
+    written as decimal literals of their own, so that the two floats differ in the last bit and the sum lands a hair
+    below or above a whole unit. Results must be in range whatever the noise."""
+    out = []
+    for cc in range(1, 100):
+        for k in ((0, 1, 59) if part < 2 else (0, 1, 23)):
+            if part == 0:
+                t = ["hmsf", 0, 0, k, cc / 100.0]
+                amount = float("%d.%02d" % (k, cc))
+                ds = [{"seconds": -amount}, {"seconds": float("%d.%02d" % (59 - k, 100 - cc))}, {"minutes": -amount / 60}]
+            elif part == 1:
+                t = ["hmf", 0, k, cc / 100.0]
+                secs = float("%.1f" % (cc * 0.6))
+                ds = [{"minutes": -k, "seconds": -secs}, {"minutes": -float("%d.%02d" % (k, cc))},
+                      {"minutes": float("%d.%02d" % (59 - k, 100 - cc))}]
+            else:
+                t = ["hf", k, cc / 100.0]
+                mins = float("%.1f" % (cc * 0.6))
+                ds = [{"hours": -k, "minutes": -mins}, {"hours": -float("%d.%02d" % (k, cc))},
+                      {"hours": float("%d.%02d" % (23 - k, 100 - cc))}]
+            for rep, f in (("cal", [2000, 3, 1]), ("ord", [2000, 61]), ("week", [2000, 9, 3])):
+                out.append(({"rep": rep, "f": f, "t": t, "tz": [0, 0]}, ds))
+    if part == 0:
+        # a whole-second point and a decimal-minute / decimal-hour duration of the same length
+        for tenth in range(1, 100):
+            secs = tenth * 6
+            out.append(({"rep": "cal", "f": [2000, 3, 1], "t": ["hms", 0, secs // 60, secs % 60], "tz": [0, 0]},
+                        [{"minutes": -tenth / 10.0}, {"hours": -tenth / 600.0}]))
+    return out
 
 
 CORNER_Y = [2000, 2003, -1]
@@ -302,6 +338,11 @@ def run_unit(unit, ctx):
             ctx.sample(lambda: {"mode": kind, "p": pdesc, "d": _DURS["core"][0], "deviations": nd})
             check_point(ctx, kind, c, pdesc, _durs("core"))
         ctx.count("corner_configurations")
+    elif u == "cancel":
+        for pdesc, ddescs in cancel_cases(unit[2]):
+            ctx.state_count += 1
+            check_point(ctx, kind, c, pdesc, [_Dur(d) for d in ddescs])
+        ctx.count("cancellation_sweeps")
     elif u == "far":
         rep = unit[2]
         for pdesc in pools.point_descs(kind, rep, pools.T_WHOLE[:1] + pools.T_24, pools.Z0 + pools.Z_DEV[1:2],
